@@ -63,24 +63,24 @@ theorem region_spec (k : Kernel) (ins : List Val) (hk : kernelTyped k (ins.map V
   · -- mul
     rcases ins with _ | ⟨⟨wa, a⟩, _ | ⟨⟨wb, b⟩, _ | ⟨⟨wc, c⟩, _ | ⟨d, t⟩⟩⟩⟩ <;> simp [kernelTyped] at hk
     obtain ⟨rfl, rfl⟩ := hk
-    simp [evalBody, equivalentRegion, evalOps, stepOp, lookupAll, lookup, evalOp, binop, kernelSpec, spec_mul]
+    simp [evalBody, equivalentRegion, evalOps, stepOp, lookupAll, lookup, evalOp, arithBin, cmpop, binop, kernelSpec, spec_mul]
   · -- add
     rcases ins with _ | ⟨⟨wa, a⟩, _ | ⟨⟨wb, b⟩, _ | ⟨⟨wc, c⟩, _ | ⟨d, t⟩⟩⟩⟩ <;> simp [kernelTyped] at hk
     obtain ⟨rfl, rfl⟩ := hk
-    simp [evalBody, equivalentRegion, evalOps, stepOp, lookupAll, lookup, evalOp, binop, kernelSpec, spec_add]
+    simp [evalBody, equivalentRegion, evalOps, stepOp, lookupAll, lookup, evalOp, arithBin, cmpop, binop, kernelSpec, spec_add]
   · -- mac
     rcases ins with _ | ⟨⟨wa, a⟩, _ | ⟨⟨wb, b⟩, _ | ⟨⟨wc, c⟩, _ | ⟨d, t⟩⟩⟩⟩ <;> simp [kernelTyped] at hk
     rcases hk with ⟨rfl, rfl⟩ | ⟨ha, hb⟩
-    · simp [evalBody, equivalentRegion, evalOps, stepOp, lookupAll, lookup, evalOp, binop, kernelSpec,
+    · simp [evalBody, equivalentRegion, evalOps, stepOp, lookupAll, lookup, evalOp, arithBin, cmpop, binop, kernelSpec,
         spec_mac]
     · have hne : wa ≠ wc := Nat.ne_of_lt ha
-      simp [evalBody, equivalentRegion, evalOps, stepOp, lookupAll, lookup, evalOp, binop, unop, kernelSpec,
+      simp [evalBody, equivalentRegion, evalOps, stepOp, lookupAll, lookup, evalOp, arithBin, cmpop, binop, unop, kernelSpec,
         spec_mac, hne, ha, hb]
   · -- qmac
     rcases ins with _ | ⟨⟨wa, a⟩, _ | ⟨⟨wb, b⟩, _ | ⟨⟨wza, za⟩, _ | ⟨⟨wzb, zb⟩, _ | ⟨⟨wc, c⟩, _ | ⟨d, t⟩⟩⟩⟩⟩⟩ <;>
       simp [kernelTyped] at hk
     obtain ⟨⟨⟨ha, hb⟩, rfl⟩, rfl⟩ := hk
-    simp [evalBody, equivalentRegion, evalOps, stepOp, lookupAll, lookup, evalOp, binop, unop, kernelSpec,
+    simp [evalBody, equivalentRegion, evalOps, stepOp, lookupAll, lookup, evalOp, arithBin, cmpop, binop, unop, kernelSpec,
       spec_qmac, ha, hb]
   · -- rescale: never typed
     simp [kernelTyped] at hk
@@ -92,6 +92,24 @@ theorem recognize_preserves (b : Body) (k : Kernel) (h : recognize true b = some
     (ins : List Val) (hins : ins.map Val.w = b.args) (hk : kernelTyped k b.args = true) :
     evalKBody (toKernelForm b k) ins = evalBody b ins := by
   rw [recognize_sound b k h ins, kernelForm_spec k b ins hins hk, ← hins, region_spec k ins (hins ▸ hk)]
+
+/-- `recognize_preserves_welltyped`: the hypothesis `kernelTyped` of `recognize_preserves` is PROVED from the
+body itself — a recognised body that evaluates on the inputs (all its ops type-check) and yields a value of
+the output element type is a well-typed kernel instance, and the kernel op written in its place means
+exactly the original body. -/
+theorem recognize_preserves_welltyped (b : Body) (k : Kernel) (h : recognize true b = some k)
+    (ins outs : List Val) (hev : evalBody b ins = some outs)
+    (hyield : outs.map Val.w = [b.args.getLastD 0]) :
+    kernelTyped k b.args = true ∧ evalKBody (toKernelForm b k) ins = evalBody b ins := by
+  have hins := evalBody_some_widths hev
+  obtain ⟨hp, hlen⟩ := recognize_shape h
+  have hreg := recognize_sound b k h ins
+  rw [hev, ← hins] at hreg
+  have ht : kernelTyped k b.args = true := by
+    rw [← hins]
+    exact region_eval_typed k ins outs hp (by rw [hlen, ← hins]; simp) hreg.symm (by rw [hins]; exact hyield)
+  exact ⟨ht, recognize_preserves b k h ins hins ht⟩
+
 
 /-! ## expansion (`convert-kernel-to-linalg`, `LowerLinalgBody`) -/
 
@@ -263,7 +281,7 @@ theorem rescale_body_eval (p : RescaleParams) (x : BitVec 32) (o : BitVec 8) (b 
   · next s _ m _ hs hm =>
     cases h
     by_cases hsh : s % 18446744073709551616 < 64 <;>
-      simp [evalBody, evalOps, stepOp, lookupAll, lookup, evalOp, binop, unop, hsh]
+      simp [evalBody, evalOps, stepOp, lookupAll, lookup, evalOp, arithBin, cmpop, binop, unop, hsh]
   · cases h
 
 /-- parameter sets the comparison is about: one shift in 1..63 per multiplier, clamp bounds ordered -/
@@ -426,6 +444,124 @@ theorem rescale_result_type_fails :
       evalBody b [⟨32, 1000#32⟩, ⟨32, 0#32⟩] = some [⟨8, BitVec.ofInt 8 (-24)⟩] :=
   ⟨⟨0, 0, [1], [0], 2147483647, -2147483648, false⟩, _, rfl, by decide⟩
 
+/-! ## rescale with fix FC18c: `LowerRescale` IS the golden model, for every input and result width -/
+
+/-- the ops the fixed `LowerRescale` emits compute the closed form `rescaleExpandFixed`: every input width
+below 64, every result width (truncation below 32 bits, nothing at 32, sign extension above), with and
+without double rounding, all parameters and inputs -/
+theorem rescale_fixed_body_eval {wi : Nat} (p : RescaleParams) (x : BitVec wi) (wr : Nat) (o : BitVec wr) (b : Body)
+    (h : rescaleBodyFixed p [wi, wr] = some b) :
+    evalBody b [⟨wi, x⟩, ⟨wr, o⟩] = (rescaleExpandFixed p x wr).map fun r => [⟨wr, r⟩] := by
+  unfold rescaleBodyFixed at h
+  unfold rescaleExpandFixed
+  split at h
+  · next s m hs hm =>
+    by_cases hwi : wi < 64
+    · simp only [List.getD_cons_zero, hwi, if_true] at h
+      cases h
+      rcases Nat.lt_trichotomy wr 32 with hw | hw | hw
+      · by_cases hsh : (s - 1) % 18446744073709551616 < 64 <;> by_cases hdr : p.doubleRound = true <;>
+          simp [evalBody, evalOps, stepOp, lookupAll, lookup, evalOp, arithBin, cmpop, ternop, binop, unop, cmpPred, hsh, hdr,
+            hwi, hw] <;>
+          exact (BitVec.signExtend_eq_setWidth_of_le _ (by omega)).symm
+      · subst hw
+        by_cases hsh : (s - 1) % 18446744073709551616 < 64 <;> by_cases hdr : p.doubleRound = true <;>
+          simp [evalBody, evalOps, stepOp, lookupAll, lookup, evalOp, arithBin, cmpop, ternop, binop, unop, cmpPred, hsh, hdr,
+            hwi]
+      · have hw' : ¬ wr < 32 := by omega
+        by_cases hsh : (s - 1) % 18446744073709551616 < 64 <;> by_cases hdr : p.doubleRound = true <;>
+          simp [evalBody, evalOps, stepOp, lookupAll, lookup, evalOp, arithBin, cmpop, ternop, binop, unop, cmpPred, hsh, hdr,
+            hwi, hw, hw']
+    · simp [hwi] at h
+  · cases h
+
+/-- `rescale_fixed_sound` (full strength; replaces `rescale_expand_partial`, whose clauses `noDoubleRound`,
+`fits` and the i8 result are gone): whenever the fixed pattern fires (uniform shift and multiplier), for every
+well-formed parameter set, every channel, every input width below 64, every result width and every input
+value, the expansion computes exactly `postprocessing_simd_golden_model` — 64-bit product, int32 cast after
+the shift by `shift-1`, double rounding, final shift, zero point, saturation — converted to the result type. -/
+theorem rescale_fixed_sound {wi : Nat} (p : RescaleParams) (ch : Nat) (x : BitVec wi) (wr : Nat)
+    (hwf : rescaleWf p) (hch : ch < p.multiplier.length) (hwi : wi < 64)
+    (s m : Int) (hs : uniformParam p.shift = some s) (hm : uniformParam p.multiplier = some m) :
+    rescaleExpandFixed p x wr = (rescaleSpec p ch x).map (BitVec.signExtend wr) := by
+  obtain ⟨hlen, hsh, hmm⟩ := hwf
+  obtain ⟨hs1, hs2⟩ := hsh s (uniformParam_mem hs)
+  have hn : (BitVec.ofInt 64 (s - 1)).toNat = (s - 1).toNat := toNat_ofInt_shift0 (by omega) (by omega)
+  have hlt : (s - 1).toNat < 64 := by omega
+  unfold rescaleExpandFixed rescaleSpec
+  rw [uniformParam_getElem hs ch (by omega), uniformParam_getElem hm ch hch]
+  simp only [hs, hm, hwi, hn, hlt, if_true, hs1, hs2, and_self, Option.map_some, Option.some.injEq]
+  simp only [BitVec.ofNat_eq_ofNat]
+  congr 1
+  rw [clamp_comm _ _ _ hmm]
+  cases p.doubleRound
+  · simp
+  · simp only [if_true]
+    rw [double_round_eq]
+
+/-- per-channel (non-uniform) or missing parameters: the fixed pattern does not fire (the kernel op stays) -/
+theorem rescale_fixed_perchannel_untouched (p : RescaleParams) (args : List Nat)
+    (h : uniformParam p.shift = none ∨ uniformParam p.multiplier = none) : rescaleBodyFixed p args = none := by
+  unfold rescaleBodyFixed
+  rcases h with h | h
+  · rw [h]
+  · rw [h]; cases uniformParam p.shift <;> rfl
+
+/-- saturation: the golden model's (hence the fixed expansion's) 32-bit value lies within `[min_int, max_int]` -/
+theorem rescale_saturates {wi : Nat} (p : RescaleParams) (ch : Nat) (x : BitVec wi) (r : BitVec 32)
+    (hwf : rescaleWf p) (h : rescaleSpec p ch x = some r) :
+    r.slt (BitVec.ofInt 32 p.minInt) = false ∧ (BitVec.ofInt 32 p.maxInt).slt r = false := by
+  unfold rescaleSpec at h
+  split at h
+  · split at h
+    · simp only [Option.some.injEq] at h
+      subst h
+      exact clip_bounds _ _ _ hwf.2.2
+    · cases h
+  · cases h
+
+/-- ... and the conversion to the result type keeps that value whenever the clamp range fits the result type -/
+theorem rescale_result_exact {wi : Nat} (p : RescaleParams) (ch : Nat) (x : BitVec wi) (r : BitVec 32) (wr : Nat)
+    (hwf : rescaleWf p) (h : rescaleSpec p ch x = some r) (hpos : 0 < wr)
+    (hlo : -((2 ^ (wr - 1) : Nat) : Int) ≤ (BitVec.ofInt 32 p.minInt).toInt)
+    (hhi : (BitVec.ofInt 32 p.maxInt).toInt < ((2 ^ (wr - 1) : Nat) : Int)) :
+    (r.signExtend wr).toInt = r.toInt := by
+  obtain ⟨h1, h2⟩ := rescale_saturates p ch x r hwf h
+  simp only [BitVec.slt_eq_decide, decide_eq_false_iff_not, Int.not_lt] at h1 h2
+  exact signExtend_exact r wr hpos (by omega) (by omega)
+
+/-! ## `LowerLinalgBody` with fix FC18a: every body keeps its function -/
+
+/-- the property for the fixed pattern on arbitrary bodies (kernel and arith ops in any number and order);
+`typed`: a single kernel op the pattern may fire on is a well-typed kernel instance (domain) -/
+def lower_fixed_statement : Prop :=
+  ∀ (b : MBody) (ins : List Val), ins.map Val.w = b.args →
+    (∀ kb : KBody, b = kb.toMBody → kernelTyped kb.kernel (kb.opTypes ++ [kb.resWidth]) = true) →
+    evalMBody (lowerResultFixed b) ins = evalMBody b ins
+
+/-- `lower_fixed_preserves` (full strength; the clause `canonical` of `lower_preserves_partial` is now
+established by the guard of the code): fused bodies, miswired kernel ops, yields of other values are left
+alone, canonical single-kernel bodies are expanded to arithmetic computing the same function. -/
+theorem lower_fixed_preserves : lower_fixed_statement := by
+  intro b ins hins typed
+  unfold lowerResultFixed
+  cases h : lowerLinalgBodyFixed b with
+  | none => rfl
+  | some r =>
+    obtain ⟨kb, hb, _, hc, hr⟩ := lowerLinalgBodyFixed_some h
+    have ht := typed kb hb
+    have hins' : ins.map Val.w = kb.args := by rw [hins, hb]; rfl
+    simp only
+    rw [hr, evalMBody_ofBody, expand_sound_partial kb ins hins' ht hc, hb, evalMBody_ofKBody]
+
+/-- the DC18a witness is left unchanged by the fixed pattern -/
+theorem dc18a_fixed_unchanged : lowerResultFixed dc18aBody.toMBody = dc18aBody.toMBody := by decide
+
+/-- canonical single-kernel bodies are still expanded -/
+theorem lower_fixed_fires (kb : KBody) (hp : kb.kernel.isParsable = true) (hc : kb.canonical = true) :
+    lowerLinalgBodyFixed kb.toMBody = some (expand kb) := by
+  simp [lowerLinalgBodyFixed, KBody.toMBody, hp, hc, expand]
+
 /-! ## non-vacuity: concrete inputs meeting the hypotheses -/
 
 /-- i8 x i8 -> i32 mac written with both commutative ops swapped (`muli b a`, `addi prod out`) -/
@@ -458,5 +594,19 @@ example : rescaleWf rescaleEx := by decide
 example : noOverflow rescaleEx 47 1140768826 (BitVec.ofInt 32 (-8737248)) := by decide
 example : (rescaleBody rescaleEx [32, 8]).isSome = true := by decide
 example : rescaleExpand rescaleEx (BitVec.ofInt 32 (-8737248)) = some (BitVec.ofInt 8 (-86)) := by decide
+
+-- fixed rescale: double rounding, i8 -> i32 (rescale up) and i32 -> i8, per-channel left alone
+def rescaleExDr : RescaleParams := ⟨0, 0, [1140768826], [47], 127, -128, true⟩
+example : rescaleWf rescaleExDr := by decide
+example : uniformParam rescaleExDr.shift = some 47 ∧ uniformParam rescaleExDr.multiplier = some 1140768826 := by decide
+example : rescaleExpandFixed rescaleExDr (BitVec.ofInt 32 (-8737248)) 8 = some (BitVec.ofInt 8 (-72)) := by decide
+example : rescaleExpandFixed rescaleExDr (BitVec.ofInt 32 (-8737248)) 8 =
+    (rescaleSpec rescaleExDr 0 (BitVec.ofInt 32 (-8737248))).map (BitVec.signExtend 8) := by decide
+example : (rescaleBodyFixed rescaleExDr [8, 32]).isSome = true := by decide
+example : rescaleBodyFixed ⟨0, 0, [1, 2], [1, 1], 127, -128, false⟩ [32, 8] = none := by decide
+
+-- recognize_preserves_welltyped
+example : evalBody macSwapped [⟨8, 0x80#8⟩, ⟨8, 0x80#8⟩, ⟨32, 0x7fffffff#32⟩] = some [⟨32, 0x80003fff#32⟩] ∧
+    [⟨32, 0x80003fff#32⟩].map Val.w = [macSwapped.args.getLastD 0] := by decide
 
 end SnaxVerif.C18
